@@ -25,6 +25,24 @@ CLAIMED = {
               'lattice variant) is validated event by event by TLC against RleTrace.tla (abstract state only).'),
         note='Trusts TLC/Json module; float closeness bound (n+4)*eps*max(...) is checked by the harness, the lattice index by TLC.',
         technique='TLA+ spec + TLC model checking (design refinement) + TLC trace validation of real call histories'),
+    'C01': dict(
+        category='model_checking', design='3/C01',
+        text=('TLC checks the lockstep writer/reader design of the RP66V1 physical layer (DlisPhys/DlisPhysMC: every even '
+              'segment length >= 16, pad/checksum/trailing-length/encryption flags, visible-record packing) against the '
+              'abstract content (DlisAbs); complete layouts enumerated by TLC and seeded random layouts (each vetted by '
+              'the writer specification) are rendered to bytes, read by the real FileRead, and the SUL fields and every '
+              'yielded record are validated by TLC against DlisPhysTrace.'),
+        note='Trusts TLC, the harness byte renderer (independent of the code under test) and its bytes->range projection.',
+        technique='TLA+ spec + TLC model checking; TLC-enumerated layouts replayed; TLC trace validation of real reads'),
+    'C02': dict(
+        category='model_checking', design='3/C02',
+        text=('TLC checks the offset/length slicing loop of get_file_logical_data (DlisIndex) against the abstract slice for '
+              'every split into <= 3/4 segments and every (offset, length); index entries and histories of fetches on ONE '
+              'real LogicalRecordIndex per generated file (permutations, repeats, ranges straddling segment and visible '
+              'record boundaries), with the file reads observed per fetch, are validated by TLC against DlisPhysTrace '
+              '(true positions and visible-record extents are derived by the writer specification).'),
+        note='Same trusted base as C01; locality is judged on reads observed through a tracing BytesIO.',
+        technique='TLA+ spec + TLC model checking; TLC trace validation of fetch histories with observed I/O'),
 }
 
 NOT_YET = 'check not built yet in this session; planned per DESIGN.md section 3'
